@@ -6,7 +6,9 @@
 #            extracted Coq machine coq/LedgerDefs.v: after every operation live item count, total slots of live item buffers
 #            and the hygiene flags are compared EXACTLY with what the model's effect ledger says.
 #   vsem     value-semantics scripts on the implementation alone (all ten sketch kinds): differential TESTING with sanitizers.
-#   ebmerge  (extra) ebpps_sketch::merge(const&) with user allocator/item: compile + run harness/drv_ledger_eb.cpp.
+#   ebmerge  (extra) members that did not compile/link with a user allocator (ebpps merge(const&), var_opt_union operator=(const&),
+#            count_min get_allocator): harness/drv_ledger_eb.cpp built once per part and run.
+# Seeded changes /verif/seeded/C19-1,2,3: all CAUGHT (lib/seedrun.py).
 #
 # Mutations confirmed caught (scratch worktree /tmp/wt_ledger = /repo + fixes/19_*.patch + fixes/03_self_assign.patch, VERIF_REPO):
 #   see MUTATIONS at the end of this file.
@@ -22,7 +24,12 @@ RULE = ('[ledger] operation scripts over 5 registers holding kll_sketch<Item> (k
         '[vsem] the same lifecycle grammar over all ten sketch kinds (kll, tuple, fi, req, var_opt, quantiles, ebpps, hll, cpc, theta) with a digest '
         '(hash of the serialized image) after each copy/move/assignment and again after mutating one side; one case in three arms the item copy '
         'constructor to throw at the n-th copy inside a copy construction / copy assignment / update / merge / chain; dedicated hll cases for self-assignment '
-        'and assignment to a moved-from sketch')
+        'and assignment to a moved-from sketch; SYSTEMATIC cases every run: bloom_filter_alloc in each memory mode (owned, initialize_by_size into caller memory, '
+        'writable_wrap, read-only wrap) x copy ctor / move ctor / copy-assign / move-assign / chain for all 16 (target, source) mode pairs with is_memory_owned() '
+        'checked against the history and caller buffers registered so that handing one to the allocator is flagged; var_opt (k in 8,16,17,32,100, all resize factors) '
+        'and var_opt_union (max_k in the same set, gadget grown past every reallocation of data_/weights_/marks_, get_result, copy/move/assign, reset); '
+        'growth-through-every-reallocation cases for kll, tuple, fi, req, quantiles, ebpps, hll (list->set->array, HLL_4 aux), cpc (all flavors), theta, tdigest, '
+        'count-min, density, with copies/moves/assignments/merges taken at every stage')
 TRUSTED = ['effect-ledger models coq/LedgerKll.v, LedgerTup.v, LedgerFi.v written by hand from kll_sketch_impl.hpp / kll_helper_impl.hpp, '
            'theta_update_sketch_base_impl.hpp and reverse_purge_hash_map_impl.hpp (sizes and constructed sets only, no item values); tied to the code by the '
            'exact comparison of live items / live item-buffer slots / flags after every operation of every generated script',
